@@ -9,9 +9,14 @@ Bounded exhaustive exploration over the E5 function grammar (mc/fgrammar.py):
      `jax.jit`, under the stateful interpreter with the non-handling handler (eager and inside jit); `jax.vmap` is
      attempted and counted (no batching rule is defined for InitialStylePrimitive: NotImplementedError is the
      documented-by-construction outcome and is not a violation; if it succeeds it must agree with vmap(f)).
+  B'. closure variant of every function: the wrapped function closes over the first argument of the enclosing
+     function, which is a tracer while the enclosing function is staged (stateful / jit): the captured value
+     reaches the primitive as a constant operand and the result must still be f(*args).
   C. hand-written composites: the wrapped primitive inside cond / switch / scan / while / fori bodies, nested
      inside another initial-style primitive, inside a nested jit, with static keyword arguments, with pytree
-     arguments - eagerly, jitted and through the interpreter.
+     arguments - eagerly, jitted and through the interpreter; and 11 composites whose wrapped function closes over
+     a value that is a TRACER at bind time (an intermediate, an enclosing argument, a cond/switch operand, a
+     scan/while carry, next to concrete constants, nested primitives, no explicit arguments at all).
 """
 
 from __future__ import annotations
@@ -38,8 +43,8 @@ ASSUMPTIONS = [
     "keyword arguments of an initial_style_bind-wrapped function are static (hashable) parameters of staging.stage; array keywords are not exercised",
 ]
 BOUNDS = {
-    "quick": {"grammar_depth": 2, "inputs": "all 2^n (2 values per argument)", "jit_stateful_every": 6, "isp_jit_every": 3, "composites": 14},
-    "thorough": {"grammar_depth": 3, "inputs": "all 2^n (2 values per argument)", "jit_stateful_every": 4, "isp_jit_every": 1, "composites": 14},
+    "quick": {"grammar_depth": 2, "inputs": "all 2^n (2 values per argument)", "jit_stateful_every": 6, "isp_jit_every": 3, "closure_jit_every": 12, "composites": 25, "closure_variant": "first argument closed over, every function"},
+    "thorough": {"grammar_depth": 3, "inputs": "all 2^n (2 values per argument)", "jit_stateful_every": 4, "isp_jit_every": 1, "closure_jit_every": 2, "composites": 25, "closure_variant": "first argument closed over, every function"},
 }
 JOBS = {"quick": 6, "thorough": 16}
 
@@ -90,8 +95,16 @@ def compare(expected, actual) -> tuple[str, dict] | None:
     la, ta = jtu.tree_flatten(actual)
     if te != ta:
         return "structure", {"expected": str(te), "actual": str(ta)}
+    import jax.core as jc
+
     for k, (e, a) in enumerate(zip(le, la)):
-        e, a = _norm(e), _norm(a)
+        if isinstance(a, jc.Tracer):  # a stale tracer escaped instead of a value
+            return "leaked_tracer", {"leaf": k, "actual": repr(a)[:200]}
+        e = _norm(e)
+        try:
+            a = _norm(a)
+        except Exception as ex:
+            return "unconvertible:" + type(ex).__name__, {"leaf": k, "actual": repr(a)[:200]}
         if e.shape != a.shape:
             return "shape", {"leaf": k, "expected": e.shape, "actual": a.shape}
         if e.dtype != a.dtype:
@@ -102,7 +115,12 @@ def compare(expected, actual) -> tuple[str, dict] | None:
     return None
 
 
+TRACED = "closes_over_traced_value"
+
+
 def _input_class(feats) -> str:
+    if TRACED in feats:
+        return TRACED
     corner = sorted(set(feats) & {"out_is_input", "out_is_literal", "out_is_const", "pytree_arg"})
     return "direct_outputs:" + ",".join(corner) if corner else "computed_outputs"
 
@@ -179,6 +197,36 @@ def run_function(ctx, spec, seed, index, tier):
                 ctx.ev((fid, "isp:jit_stateful", bits), nontrivial)
                 _check(ctx, "initial_style_bind", "isp:jit_stateful", feats, fid, bits, refs[bits],
                        lambda: jsw(*args), h)
+    # ---- B'. closure variant: the wrapped function closes over the FIRST argument of the enclosing function
+    # (all arguments when there is only one) - a concrete value eagerly, a tracer while the enclosing function is
+    # being staged by the interpreter / jit: the captured value reaches the primitive as a constant operand and
+    # the result must still be f(*args).
+    nclosed = 1 if len(inputs[0][1]) > 1 else len(inputs[0][1])
+
+    def outer(*vals):
+        closed, rest = vals[:nclosed], vals[nclosed:]
+        return initial_style_bind(_prim())(lambda *r: f(*closed, *r))(*rest)
+
+    cfeats = set(feats) | {TRACED}
+    so = stateful(outer)
+    for bits, args in inputs:
+        ctx.ev((fid, "isp_closure:eager", bits), nontrivial)
+        _check(ctx, "InitialStylePrimitive", "isp_closure:eager", cfeats, fid, bits, refs[bits], lambda: outer(*args))
+        h = _handler()
+        ctx.ev((fid, "isp_closure:stateful", bits), nontrivial)
+        _check(ctx, "InitialStylePrimitive", "isp_closure:stateful", cfeats, fid, bits, refs[bits],
+               lambda: so(h, *args), h)
+    if index % b["closure_jit_every"] == 1:
+        jo = jax.jit(outer)
+        h = _handler()
+        jso = jax.jit(lambda *a: so(h, *a))
+        for bits, args in inputs:
+            ctx.ev((fid, "isp_closure:jit", bits), nontrivial)
+            _check(ctx, "InitialStylePrimitive", "isp_closure:jit", cfeats, fid, bits, refs[bits], lambda: jo(*args))
+            ctx.ev((fid, "isp_closure:jit_stateful", bits), nontrivial)
+            _check(ctx, "InitialStylePrimitive", "isp_closure:jit_stateful", cfeats, fid, bits, refs[bits],
+                   lambda: jso(*args), h)
+
     # vmap (once per function, over the batch of both alphabet values of every argument)
     alphas = spec.alphabets(seed)
     batched = tuple(jtu.tree_map(lambda a0, a1: jnp.stack([a0, a1]), al[0], al[1]) for al in alphas)
@@ -277,6 +325,68 @@ def _composites():
     add("wrapped_scan_in_isp", ("x", "v"),
         lambda x, v: I["scanb"](v, g1(x)),
         lambda x, v: isb(lambda a, u: I["scanb"](u, w1(a)))(x, v), ("scan", "nested"))
+    # ---- the wrapped function closes over a value that is a tracer at bind time
+    T = (TRACED,)
+
+    def mk(wrap):
+        """(plain, wrapped) pair of the same Python function: wrap = identity / initial_style_bind."""
+
+        def intermediate(x, y):  # (a) an intermediate computed from the enclosing arguments
+            scale = jnp.exp(x) + 1.0
+            return wrap(lambda u: u * scale)(y)
+
+        def argument(x, v):  # (b) an enclosing argument directly
+            return wrap(lambda u: u * x + 1.0)(v)
+
+        def cond_operand(b, x, y):  # (c) the operand of a cond branch
+            return lax.cond(b, lambda a, c: wrap(lambda u: u * a + 1.0)(c), lambda a, c: a - c, x, y)
+
+        def scan_carry(x, v):  # (d) the carry of a scan body
+            return lax.scan(lambda c, e: (wrap(lambda u: u * 0.5 + c)(e), wrap(lambda u: u * c)(e)), x, v)
+
+        def mixed_consts(x, v):  # a traced intermediate next to a concrete closed constant (operand order)
+            s1 = jnp.sin(x)
+            return wrap(lambda u: (u + cV) * s1 - cF)(v)
+
+        def two_traced(x, y, v):  # two traced constants of different shape
+            s1, s2 = x * 2.0, v + y
+            return wrap(lambda u: {"a": u * s1, "b": s2 - u, "c": s2})(y)
+
+        def nested(x, v):  # inner primitive closes over a parameter of the outer primitive
+            return wrap(lambda a, u: wrap(lambda t: t * a + 1.0)(u))(x, v)
+
+        def switch_operand(i, x):
+            return lax.switch(i, [lambda a: wrap(lambda u: u + a)(2.0), lambda a: -a,
+                                  lambda a: wrap(lambda u: u * a)(a)], x)
+
+        def while_carry(x):
+            return lax.while_loop(lambda s: s[1] < 3,
+                                  lambda s: (wrap(lambda k: s[0] * 0.5 + k)(s[1]), s[1] + 1), (x, 0))
+
+        def no_explicit_args(x, v):  # everything reaches the primitive as a constant operand
+            return wrap(lambda: (x * 2.0, v + x, 2.0))()
+
+        def in_jit(x, v):
+            return jax.jit(lambda a, u: wrap(lambda t: t * a)(u))(x, v)
+
+        return dict(
+            traced_intermediate=(("x", "y"), intermediate),
+            traced_argument=(("x", "v"), argument),
+            traced_cond_operand=(("b", "x", "y"), cond_operand),
+            traced_scan_carry=(("x", "v"), scan_carry),
+            traced_mixed_consts=(("x", "v"), mixed_consts),
+            traced_two_consts=(("x", "y", "v"), two_traced),
+            traced_nested=(("x", "v"), nested),
+            traced_switch_operand=(("i", "x"), switch_operand),
+            traced_while_carry=(("x",), while_carry),
+            traced_no_explicit_args=(("x", "v"), no_explicit_args),
+            traced_in_jit=(("x", "v"), in_jit),
+        )
+
+    plain_fns = mk(lambda g: g)
+    wrapped_fns = mk(isb)
+    for cname, (cargs, pf) in plain_fns.items():
+        add(cname, cargs, pf, wrapped_fns[cname][1], T)
     return comps
 
 
@@ -286,6 +396,7 @@ def run_composite(ctx, name, seed):
 
     args_names, plain, wrapped, feats = _composites()[name]
     fid = "composite:" + name
+    comp = "InitialStylePrimitive" if TRACED in feats else "initial_style_bind"
     alphas = [G._pytree_alphabet(a, seed) for a in args_names]
     sw = stateful(wrapped)
     jw = jax.jit(wrapped)
@@ -294,12 +405,12 @@ def run_composite(ctx, name, seed):
         args = tuple(al[b] for al, b in zip(alphas, bits))
         ref = plain(*args)
         ctx.ev((fid, "isp:eager", bits))
-        _check(ctx, "initial_style_bind", "isp_composite:eager", feats, fid, bits, ref, lambda: wrapped(*args))
+        _check(ctx, comp, "isp_composite:eager", feats, fid, bits, ref, lambda: wrapped(*args))
         ctx.ev((fid, "isp:jit", bits))
-        _check(ctx, "initial_style_bind", "isp_composite:jit", feats, fid, bits, ref, lambda: jw(*args))
+        _check(ctx, comp, "isp_composite:jit", feats, fid, bits, ref, lambda: jw(*args))
         h = _handler()
         ctx.ev((fid, "isp:stateful", bits))
-        _check(ctx, "initial_style_bind", "isp_composite:stateful", feats, fid, bits, ref, lambda: sw(h, *args), h)
+        _check(ctx, comp, "isp_composite:stateful", feats, fid, bits, ref, lambda: sw(h, *args), h)
         h2 = _handler()
         ctx.ev((fid, "plain:stateful", bits))
         _check(ctx, "StatefulInterpreter", "stateful:eager", feats, fid, bits, ref, lambda: stateful(plain)(h2, *args), h2)
@@ -308,12 +419,15 @@ def run_composite(ctx, name, seed):
     for bits in itertools.product((0, 1), repeat=len(alphas)):
         args = tuple(al[b] for al, b in zip(alphas, bits))
         ctx.ev((fid, "isp:jit_stateful", bits))
-        _check(ctx, "initial_style_bind", "isp_composite:jit_stateful", feats, fid, bits, plain(*args), lambda: jsw(*args), h3)
+        _check(ctx, comp, "isp_composite:jit_stateful", feats, fid, bits, plain(*args), lambda: jsw(*args), h3)
 
 
 COMPOSITE_NAMES = [
     "in_cond", "in_switch", "in_scan", "in_fori", "in_while", "in_jit", "nested_isp", "sequence", "static_kwarg",
     "pytree_arg", "no_args_used", "same_out_twice", "wrapped_custom_jvp_in_cond", "wrapped_scan_in_isp",
+    "traced_intermediate", "traced_argument", "traced_cond_operand", "traced_scan_carry", "traced_mixed_consts",
+    "traced_two_consts", "traced_nested", "traced_switch_operand", "traced_while_carry", "traced_no_explicit_args",
+    "traced_in_jit",
 ]
 
 
